@@ -119,16 +119,19 @@ def alpineIssueVersion : Bytes → Option Bytes
     | some v => some v
     | none => alpineIssueVersion cs
 
+/-- `readOSRelease` after `osrelease.Parse` succeeded. -/
+def alpineFromKV (m : KV) : ScanOut :=
+  if get m kID != JoinReleases.alpine.distID then .none else
+  match beforeLastDot (get m kVERSION_ID) with
+  | none => .none
+  | some v0 =>
+    let v := if get m kPRETTY_NAME == JoinReleases.alpine.edgePrettyName then JoinReleases.alpine.edgeVersion else v0
+    .dist { name := get m kNAME, did := get m kID, version := v, prettyName := get m kPRETTY_NAME }
+
 def alpineOsRelease (b : Bytes) : ScanOut :=
   match osParse b with
   | none => .err
-  | some m =>
-    if get m kID != JoinReleases.alpine.distID then .none else
-    match beforeLastDot (get m kVERSION_ID) with
-    | none => .none
-    | some v0 =>
-      let v := if get m kPRETTY_NAME == JoinReleases.alpine.edgePrettyName then JoinReleases.alpine.edgeVersion else v0
-      .dist { name := get m kNAME, did := get m kID, version := v, prettyName := get m kPRETTY_NAME }
+  | some m => alpineFromKV m
 
 def alpineIssue (b : Bytes) : ScanOut :=
   if JoinReleases.alpine.edgeIssueRegexp.matches b then
@@ -162,22 +165,25 @@ def debianParenWord (s : Bytes) : Bytes :=
     | _, _ => []
   | _ => []
 
+/-- `findDist` after `osrelease.Parse` succeeded. -/
+def debianFromKV (m : KV) : ScanOut :=
+  if get m kID != [100, 101, 98, 105, 97, 110] then .none else
+  let name := match lookup m kVERSION_CODENAME with
+    | some n => n
+    | none => trimFn (fun c => !isLetter c) (debianParenWord (get m kVERSION))
+  let idstr := get m kVERSION_ID
+  if name.isEmpty || idstr.isEmpty then .none else
+  match parseInt32 idstr with
+  | none => .none
+  | some id => .dist (JoinReleases.debian.mkDist.eval [.str name, .int id])
+
 def debianScan (osr : Option Bytes) : ScanOut :=
   match osr with
   | none => .none
   | some b =>
     match osParse b with
     | none => .none
-    | some m =>
-      if get m kID != [100, 101, 98, 105, 97, 110] then .none else
-      let name := match lookup m kVERSION_CODENAME with
-        | some n => n
-        | none => trimFn (fun c => !isLetter c) (debianParenWord (get m kVERSION))
-      let idstr := get m kVERSION_ID
-      if name.isEmpty || idstr.isEmpty then .none else
-      match parseInt32 idstr with
-      | none => .none
-      | some id => .dist (JoinReleases.debian.mkDist.eval [.str name, .int id])
+    | some m => debianFromKV m
 
 /-! ### ubuntu -/
 
